@@ -75,6 +75,9 @@ impl PartialOrd for Fq2 {
                     lemma_be_len({first} as nat, 48); }}""")
             return b
         u.add(u.real_fn(mod, f'impl EncodedPoint for {enc}', 'from_affine', f"    ensures ret.0@ == enc_{k}{n}(affine.a())", ret='ret', vis='pub', body_edit=edit))
+        # the byte accessors of the encoding newtype: the slice handed out is the whole array (all N bytes, in order), and writes through as_mut land in it
+        u.add(u.real_fn(mod, f're:impl\\s+AsRef<\\[u8\\]>\\s+for\\s+{enc}\\b', 'as_ref', f"    ensures ret@ == self.0@, ret@.len() == {N}", ret='ret', vis='pub'))
+        u.add(u.real_fn(mod, f're:impl\\s+AsMut<\\[u8\\]>\\s+for\\s+{enc}\\b', 'as_mut', f"    ensures ret@ == old(self).0@, final(ret)@ == final(self).0@, ret@.len() == {N}", ret='ret', vis='pub'))
         u.add("}")
     # CurveAffine::into_compressed / into_uncompressed: trait defaults (lib.rs), written out at G1Affine / G2Affine (R6: Self::Compressed and the
     # `<T as EncodedPoint>::` path resolved at the instantiation)
